@@ -39,7 +39,8 @@ def sample_cols(center):
 # generation
 
 def gen_case(rng, tier, methods=('cycles', 'amp'), centers=('peak', 'trough'), kinds=None, max_len=480,
-             fek_prob=0.7, extra=None, wide=False, f32=False, rs_prob=0.85, amp_wide=False, signal=None, exact_k=3):
+             fek_prob=0.7, extra=None, wide=False, f32=False, rs_prob=0.85, amp_wide=False, signal=None, exact_k=3,
+             other=True):
     """One compute_features case.  wide=True additionally varies the band (off-band / narrow / wide), the type and
     value of fs, the container of f_range, the sample dtype (int64; float32 with f32=True) and generates empty option
     dictionaries (gen.vary); amp_wide=True additionally generates, for the amplitude method, the detector's own
@@ -50,7 +51,8 @@ def gen_case(rng, tier, methods=('cycles', 'amp'), centers=('peak', 'trough'), k
     the analysis on a refilled work buffer, on a read-only array, after rejected calls; same kind of generator).
     ~15 % of the cases (drawn the same way, exact_length) are re-expressed so that a filter length / minimum duration
     falls exactly on an integer number of samples or one ulp beside it (`exact`; exact_k: the envelope's number of
-    cycles, None = not here)."""
+    cycles, None = not here).  ~15 % of the consistency-method cases (drawn the same way, other_method_options; other=False
+    = not here) carry a non-empty burst_kwargs dictionary, i.e. the options of the method that is NOT selected (`+bk`)."""
     s = signal if signal is not None else gen.signal(rng, kind=(rng.choice(kinds) if kinds else None), max_len=max_len)
     if wide:
         s = gen.vary(rng, s, f32=f32)
@@ -126,11 +128,53 @@ def gen_case(rng, tier, methods=('cycles', 'amp'), centers=('peak', 'trough'), k
             c['bk'] = {}
     if extra:
         c.update(extra)
+    if other:
+        other_method_options(c, s)
     if exact_k is not None:
         exact_length(c, s['period'], exact_k)
     c['key_order'] = key_order(c)
     c.update(mechanisms(c))
     return c
+
+
+OTHER_SHARE = 0.15
+
+
+def other_method_options(c, s):
+    """Options documented for ONE burst method given while the OTHER method is selected.  What the library does with them
+    (established on the unchanged library, compute_features and Bycycle alike):
+      burst_method='cycles' + burst_kwargs (amp_threshes, min_n_cycles, min_burst_duration, filter_kwargs): accepted, and
+          the table is the one of the call without burst_kwargs (the dictionary belongs to the amplitude detector);
+      burst_method='amp' + a consistency threshold in threshold_kwargs: rejected (TypeError from detect_bursts_amp), so
+          nothing of that kind is generated here (min_n_cycles, the one key both methods' thresholds share, is C07's
+          routing subject and generated by gen_case / gen_routing_case).
+    For OTHER_SHARE of the consistency-method cases (drawn from a generator seeded with the case content: the main stream
+    of no driver is shifted, every other case stays as it was) burst_kwargs becomes a NON-EMPTY dictionary of the
+    amplitude detector's options that always holds a min_n_cycles DIFFERENT from the count in force (the thresholds'
+    value, else 3).  The judged table is the one the properties describe for the selected method: `resolved` takes the
+    count from the thresholds only and the model (MCycles) gets thresholds and that count, as before.  Modifies c in
+    place (before exact_length / key_order / mechanisms are drawn), records c['other'], tags the kind with +bk."""
+    if c['method'] != 'cycles' or c.get('shape_only'):
+        return None
+    r = random.Random(canon_hash({k: v for k, v in c.items() if k not in ('key_order', 'history', 'exact', 'other') + MECH_FIELDS})
+                      + '/othermethod')
+    if r.random() >= OTHER_SHARE:
+        return None
+    in_force = (c.get('thr') or {}).get('min_n_cycles', 3)
+    bk = {'min_n_cycles': r.choice([n for n in (1, 1, 2, 2, 3, 4, 5, 6, 10) if n != in_force])}
+    if r.random() < 0.6:
+        bk['amp_threshes'] = r.choice([(1, 2), (0.5, 1.5), (1, 1.5), (0.8, 1.2), (0, 0), (5, 9)])
+    if r.random() < 0.4:
+        if r.random() < 0.6:
+            bk['filter_kwargs'] = {'n_cycles': r.choice([1, 2, 4, 5])}
+        else:
+            bk['filter_kwargs'] = {'n_seconds': round(r.choice([0.5, 2, 2.5, 4]) * s.get('nsec_unit', s['period'] / s['fs'] / 0.7), 6)}
+    if r.random() < 0.25:
+        bk['min_burst_duration'] = r.choice([0, round(r.choice([1, 2, 3, 30]) * s['period'] / s['fs'], 6)])
+    c['bk'] = bk
+    c['other'] = {'options_of': 'amp', 'min_n_cycles': bk['min_n_cycles']}
+    c['kind'] += '+bk'
+    return c['other']
 
 
 ROUTING_PAIRS = [(1, 5), (5, 1), (2, 6), (6, 2), (2, 4), (4, 2), (1, 3), (3, 1),
@@ -926,7 +970,7 @@ def gen_shape_case(rng, tier):
     """compute_shape_features called directly with its own n_cycles argument (default extrema filter when
     find_extrema_kwargs is None, and length of the band-amplitude filter)."""
     s = gen.signal(rng, kind=None, max_len=480)            # (drawn here, as gen_case would, to know the rhythm's period)
-    c = gen_case(rng, tier, methods=('cycles',), fek_prob=0.5, wide=True, signal=s, exact_k=None)
+    c = gen_case(rng, tier, methods=('cycles',), fek_prob=0.5, wide=True, signal=s, exact_k=None, other=False)
     c['kind'] = 'shape/' + c['kind'].split('/', 2)[2]
     c.update(shape_only=True, n_cycles=rng.choice([2, 3, 5]), thr=None, bk=None, return_samples=True)
     if exact_length(c, s['period'], c['n_cycles']):
@@ -1415,19 +1459,24 @@ def spec_minrun(q, n):
 
 
 def oracle_labels_cycles(c, o):
-    """C06 on pipeline tables: labels = rule applied to the table's own features with the caller's thresholds."""
+    """C06 on pipeline tables: labels = rule applied to the table's own features with the caller's thresholds (the
+    count is the THRESHOLDS' min_n_cycles, else 3, whatever else the call carries).  The table of the same analysis made
+    through Bycycle.fit (cases with `fit`) is a compute_features table and is judged the same way."""
     if 'skip' in o or 'err' in o or c['method'] != 'cycles':
         return None
-    rows = unjson(o['rows'])
     rs = resolved(c)
-    q = [all(r['burst'][k] > rs['thr'][k] for k in range(4)) for r in rows]
-    if q:
-        q[0] = False
-        q[-1] = False
-    want = spec_minrun(q, rs['n'])
-    got = [r['is_burst'] for r in rows]
-    if got != want:
-        return 'is_burst differs from the threshold-and-run rule with the thresholds passed: got %s want %s' % (got, want)
+    for key, what in (('rows', ''), ('fit_rows', 'Bycycle.fit: ')):
+        if key not in o:
+            continue
+        rows = unjson(o[key])
+        q = [all(r['burst'][k] > rs['thr'][k] for k in range(4)) for r in rows]
+        if q:
+            q[0] = False
+            q[-1] = False
+        want = spec_minrun(q, rs['n'])
+        got = [r['is_burst'] for r in rows]
+        if got != want:
+            return '%sis_burst differs from the threshold-and-run rule with the thresholds passed: got %s want %s' % (what, got, want)
     return None
 
 
@@ -1637,8 +1686,21 @@ def kind_of(c, o):
         _count('fs_replays_with_rescaled_n_seconds')
     if o.get('bft_used') is not None:
         _count('thresholds_taken_from_a_first_run')
-    if (c.get('bk') or {}).get('filter_kwargs') is not None:
+    if (c.get('bk') or {}).get('filter_kwargs') is not None and c['method'] == 'amp':
         _count('cases_with_detector_filter_kwargs')
+    if c['method'] == 'cycles' and c.get('bk') and not c.get('shape_only') and 'ref' in o:
+        # options of the method that is not selected (other_method_options)
+        _count('cycles_cases_with_nonempty_burst_kwargs')
+        n_other, n_here = c['bk'].get('min_n_cycles'), resolved(c)['n']
+        _count('cycles_cases_whose_burst_kwargs_count_differs', int(n_other is not None and n_other != n_here))
+        if 'rows' in o and n_other is not None:
+            rows = unjson(o['rows'])
+            th = resolved(c)['thr']
+            q = [all(r['burst'][k] > th[k] for k in range(4)) for r in rows]
+            if q:
+                q[0] = q[-1] = False
+            _count('cycles_cases_where_the_burst_kwargs_count_would_change_a_label',
+                   int(spec_minrun(q, n_other) != spec_minrun(q, n_here)))
     ko = c.get('key_order') or {}
     if any(ko.get(n) and ko[n] != list(c[n]) for n in ('fek', 'thr', 'bk') if isinstance(c.get(n), dict)):
         _count('cases_with_reordered_option_keys')
